@@ -14,6 +14,7 @@ void gx_add_fault(int site, int tid, int k, int sticky, int err, int mode, int64
 void gx_common_cfg(int n);
 void gx_absent(int pct);
 void gx_eintr(int nloops, int pct);
+void gx_regfail(void);
 int64_t gx_delta(void);
 uint64_t gx_u64(void);
 #define R gx_R
@@ -177,6 +178,7 @@ static void gen_inot(int tier)
 	}
 	gx_absent(8);
 	gx_eintr(1, 12);
+	gx_regfail();
 }
 
 int gen_ext4(struct plan *p, const char *scenario, const char *prop, int tier)
